@@ -405,6 +405,11 @@ def resolve_op(op, m):
         w = ids[i % len(ids)]
         return ["del", w, [p for p in prefs if m.pref[p] == w]]
     if k == "@move":
+        if not ids:
+            return None
+        if i % 3 == 0:
+            # moving an LRU that is not (or not known to be) a prefix, source unchecked
+            return ["move", lru, ids[j % len(ids)], False]
         if len(ids) < 2:
             return None
         p = prefs[i % len(prefs)]
